@@ -35,6 +35,8 @@ func Alphabet(name string) []Msg {
 		return TinyAlphabet()
 	case "c16":
 		return ConvAlphabet()
+	case "lookalike":
+		return LookalikeAlphabet()
 	}
 	panic("unknown alphabet " + name)
 }
